@@ -43,7 +43,7 @@ META = {
         "shared MdParserConfig, the document.settings object (one per Sphinx build) or the Sphinx app/env must be one of: "
         "constant install or constant-key reset executed on every parse around the render call; restore of a value (or of the "
         "absence of a key) saved from the same place; mutation inside a try whose finally restores a saved copy; data under an "
-        "env attribute that Sphinx merges per docname (metadata & co.) keyed by env.docname; env.temp_data; tabled current-"
+        "env attribute that Sphinx merges per docname (metadata & co.) keyed by env.docname; env.temp_data / ref_context (that Sphinx discards them after every read is re-read from Builder.read_doc); tabled current-"
         "document env API; settings attribute overwritten from the document's own config on every render or parse - unless its name is one "
         "under which the docutils create_myst_config reads a config field back from the settings object (`myst_<field>`: a "
         "reused settings object would turn one document's file-level value into the next document's global config); write to a fresh "
@@ -66,6 +66,11 @@ META = {
         "messages returned by docutils' role/directive registry lookup (emitted only the first time a name is looked up in a "
         "process) are used only under the lookup-failed test. R12: no warning goes through an API that de-duplicates against "
         "earlier emissions of the process (Sphinx logging once=True, warnings.warn), one tabled build-level notice excepted. "
+        "R13: a set is never turned into text (f-string, str/repr/format/%, join) unsorted - its order depends on the hash seed "
+        "of the process. R14: the variable context handed to a template holds deep copies of configured values (a shallow "
+        "copy still exposes the shared dict/list objects to mutating template expressions); a by-reference fallback in the "
+        "handler of a failed deepcopy is accepted as best effort. R5 has no tabled exception any more (the lazily filled "
+        "_inventories cache must be reset per render too). "
         "R1 also judges method calls on a module-/class-level instance of a package class whose method keeps state (writes "
         "self, mutates a member, calls into an external base class), and reads the library source of an external function "
         "that is handed the Sphinx env to see that it only uses tabled env methods."
@@ -80,11 +85,12 @@ META = {
         "CPython ast",
         "engine call graph incl. frozen special edges (their patterns are re-applied module-wide by this module)",
         "tables in this module: ENV_API / ENV_PURE / ENV_ARG_API / ENV_MERGED / SETTINGS_API / REGISTRY_CALLS / FRESH_CALLS / STATEFUL_CTORS / IMMUTABLE_RESULTS / RESET_EXCEPTIONS / ONCE_EXCEPTIONS / EFFECT_PREFIXES",
-        "sibling sources docutils/parsers/rst/__init__.py and directives/misc.py (default-role oracle); library functions that receive the env are read from site-packages",
+        "sibling sources docutils/parsers/rst/__init__.py and directives/misc.py (default-role oracle); library functions that receive the env are read from site-packages; sphinx/builders/__init__.py + sphinx/environment/__init__.py (temp_data lifetime)",
     ],
     "assumptions": [
         "docutils creates one document/reporter per parse; under Sphinx the settings object is the publisher's and shared by all documents (judged as shared), settings.record_dependencies is replaced per document",
-        "Sphinx clears env.temp_data per document and merges env.metadata & co. / domain data per docname from parallel read workers; ad-hoc env attributes are not merged",
+        "Sphinx merges env.metadata & co. / domain data per docname from parallel read workers and resets env.metadata[docname] when a document is re-read; ad-hoc env attributes are not merged",
+        "template expressions (Jinja, sandboxed or not) may call mutating methods of the values in their context",
         "the build environment (incl. env.myst_config) is pickled and re-loaded by the next build",
         "markdown-it creates a fresh env dict per MarkdownIt.render call; docutils Element constructors copy list-valued keyword arguments",
         "docutils' roles.role()/directives.directive() cache successful lookups process-wide and emit their language-fallback messages only on the first lookup; failed lookups are not cached",
@@ -1255,6 +1261,37 @@ def _settings_feedback(ef: Effects, s: Site) -> str | None:
     )
 
 
+def _temp_data_per_document(corpus: Corpus) -> str | None:
+    """Re-read from Sphinx's source: Builder.read_doc discards env.temp_data / env.ref_context after every document."""
+    def compute():
+        try:
+            b = corpus.sibling("sphinx/builders/__init__.py")
+        except AnchorMissing:
+            return None
+        rd = b.functions.get("Builder.read_doc")
+        if rd is None:
+            return None
+        cleared = set()
+        for n in walk_local(rd.node):
+            if isinstance(n, ast.Call) and isinstance(n.func, ast.Attribute) and n.func.attr == "clear":
+                cleared.add((dotted(n.func.value) or "").rsplit(".", 1)[-1])
+            if isinstance(n, ast.Assign) and isinstance(n.targets[0], ast.Attribute) and isinstance(n.value, ast.Call):
+                cleared.add(n.targets[0].attr)
+        if "temp_data" in cleared:
+            return f"{b.rel}: read_doc calls env.temp_data.clear() after every document"
+        if "current_document" in cleared:
+            try:
+                e = corpus.sibling("sphinx/environment/__init__.py")
+            except AnchorMissing:
+                return None
+            td = e.functions.get("BuildEnvironment.temp_data")
+            if td is not None and any(isinstance(n, ast.Return) and n.value is not None and unparse(n.value) == "self.current_document" for n in walk_local(td.node)):
+                return f"{b.rel}: read_doc installs a new env.current_document after every document, and env.temp_data is that object ({e.rel})"
+        return None
+
+    return corpus.cache("c15-temp-data-fact", compute)
+
+
 def _judge_shared(ef: Effects, s: Site, roots: frozenset) -> tuple[str, str]:
     """('ok'|'assumed'|'violation'|'error', reason) for a write whose object has a shared root."""
     fi = s.fi
@@ -1340,7 +1377,10 @@ def _judge_shared(ef: Effects, s: Site, roots: frozenset) -> tuple[str, str]:
                 fin = _in_finally(s.node)
                 return "ok", f"restore of the value saved in `{name}` from the same place" + (" (in finally)" if fin is not None else "")
     if any(seg in s.written for seg in (".temp_data", ".ref_context")) and any(r.kind == "ENV" for r in roots):
-        return "ok", "env.temp_data / env.ref_context: per-document scratch space that Sphinx clears after every read"
+        fact = _temp_data_per_document(ef.c)
+        if fact is None:
+            return "error", f"{s.site}: `{short(s.node, 50)}` writes env.temp_data/ref_context, but Sphinx's Builder.read_doc was not found to clear/replace them after a read (source re-read on every run)"
+        return "ok", "env.temp_data / env.ref_context: per-document scratch space; " + fact
     for tr in _covering_tries(fi, s.node):
         for st in _stores_in(tr.finalbody):
             if _covers(_ntext(st.targets[0], fi), s.written) and _restore_info(fi, st) is not None:
@@ -1939,9 +1979,9 @@ def r4_freshness(corpus: Corpus, rep: Report, tier: str):
 # ---------------------------------------------------------------------------
 # R5 reset completeness
 
-RESET_EXCEPTIONS = {
-    "_inventories": "lazily filled cache of the inventories named by md_config.inventories (fixed for the parser); set to None in __init__, filled under `is None`; the renderer is created per parse (R4)",
-}
+# attributes a render writes that setup_render need not reset (none today: the lazily filled `_inventories` cache was such an
+# entry until a reused renderer was shown to serve the first render's inventories/config to every later render)
+RESET_EXCEPTIONS: dict[str, str] = {}
 
 
 def _self_attr_of(written: str) -> str | None:
@@ -2370,8 +2410,12 @@ def r9_env_config_refreshed(corpus: Corpus, rep: Report, tier: str):
         if fi.fq not in ef.parse_reach or fi.is_lambda:
             continue
         for n in walk_local(fi.node, into_lambdas=False):
-            if isinstance(n, ast.Attribute) and isinstance(n.ctx, ast.Load) and isinstance(n.value, ast.Attribute) and n.value.attr == "env" and n.attr.startswith("myst"):
-                read_attrs.setdefault(n.attr, fi.module.site(n))
+            if isinstance(n, ast.Attribute) and isinstance(n.ctx, ast.Load) and n.attr.startswith("myst") and isinstance(n.value, (ast.Name, ast.Attribute)):
+                if (isinstance(n.value, ast.Attribute) and n.value.attr in ENV_ATTRS) or any(r.kind == "ENV" and r.obj for r in ef.classify(n.value, fi)):
+                    read_attrs.setdefault(n.attr, fi.module.site(n))
+            elif isinstance(n, ast.Call) and dotted(n.func) == "getattr" and len(n.args) >= 2 and isinstance(n.args[1], ast.Constant) and str(n.args[1].value).startswith("myst"):
+                if any(r.kind == "ENV" and r.obj for r in ef.classify(n.args[0], fi)):
+                    read_attrs.setdefault(n.args[1].value, fi.module.site(n))
     if not read_attrs:
         rep.error("C15.R9", "no env.myst* attribute is read in parse reach (expected env.myst_config)")
         return
@@ -2387,7 +2431,7 @@ def r9_env_config_refreshed(corpus: Corpus, rep: Report, tier: str):
     for attr, rsite in sorted(read_attrs.items()):
         writers: dict[str, list[Site]] = {}
         for s in ef.sites():
-            if s.how in ("store", "setattr") and (s.written.endswith(f".env.{attr}") or s.written == f"env.{attr}"):
+            if s.how in ("store", "setattr") and (s.written.endswith(f".env.{attr}") or s.written == f"env.{attr}" or (s.written.endswith(f".{attr}") and any(r.kind == "ENV" and r.obj for r in ef.roots(s)))):
                 writers.setdefault(s.fi.fq, []).append(s)
         if not writers:
             rep.violation("C15.R9", f"env.{attr}|assigned by a builder-inited handler", rsite, f"env.{attr} is read during parsing but never assigned by the package")
@@ -2626,6 +2670,240 @@ def r12_no_once_emission(corpus: Corpus, rep: Report, tier: str):
     if n == 0:
         rep.ok("C15.R12", "no once-only emission in parse reach", "myst_parser", "nothing to judge")
 
+
+# ---------------------------------------------------------------------------
+# R13 the iteration order of a set never becomes text
+
+
+def _is_set_expr(ef: Effects, e: ast.expr, fi: FunctionInfo, depth: int = 0) -> bool:
+    if depth > 4:
+        return False
+    if isinstance(e, (ast.Set, ast.SetComp)):
+        return True
+    if isinstance(e, ast.Call):
+        d = dotted(e.func) or ""
+        if d in ("set", "frozenset"):
+            return True
+        if isinstance(e.func, ast.Attribute) and e.func.attr in ("intersection", "difference", "union", "symmetric_difference") :
+            return _is_set_expr(ef, e.func.value, fi, depth + 1) or any(_is_set_expr(ef, a, fi, depth + 1) for a in e.args)
+        if isinstance(e.func, ast.Attribute) and e.func.attr == "copy":
+            return _is_set_expr(ef, e.func.value, fi, depth + 1)
+        return False
+    if isinstance(e, ast.BinOp) and isinstance(e.op, (ast.Sub, ast.BitAnd, ast.BitOr, ast.BitXor)):
+        return _is_set_expr(ef, e.left, fi, depth + 1) or _is_set_expr(ef, e.right, fi, depth + 1)
+    if isinstance(e, ast.IfExp):
+        return _is_set_expr(ef, e.body, fi, depth + 1) or _is_set_expr(ef, e.orelse, fi, depth + 1)
+    if isinstance(e, ast.Name):
+        f, binds = ef.lookup(e.id, fi)
+        if not binds:
+            return False
+        vals = []
+        for kind, v, p_ in binds:
+            if kind == "param":
+                a = f.node.args
+                for x in a.posonlyargs + a.args + a.kwonlyargs:
+                    if x.arg == e.id and x.annotation is not None and unparse(x.annotation).strip("'\"").lower().startswith(("set[", "set", "frozenset", "abstractset")):
+                        return True
+                return False
+            if kind == "assign" and v is not None and not p_:
+                vals.append(v)
+            else:
+                return False
+        return bool(vals) and all(_is_set_expr(ef, v, f, depth + 1) for v in vals)
+    if isinstance(e, ast.Attribute):
+        try:
+            t = ef.g.expr_type(e.value, fi)
+        except Exception:
+            t = None
+        if t and t[0] == "is":
+            for c in ef.c.mro(t[1]):
+                for st in c.node.body:
+                    if isinstance(st, ast.AnnAssign) and isinstance(st.target, ast.Name) and st.target.id == e.attr:
+                        return unparse(st.annotation).strip("'\"").lower().startswith(("set[", "frozenset["))
+    return False
+
+
+@rule("C15.R13")
+def r13_set_order_not_in_text(corpus: Corpus, rep: Report, tier: str):
+    rep.rule("C15.R13", "a set is never formatted into text (f-string, str/repr/format/%, join) without sorting: its iteration order depends on the hash seed of the process, so the same document would get different warning text in different processes")
+    ef = _effects(corpus)
+    n = 0
+    for fi in corpus.all_functions():
+        if fi.fq not in ef.parse_reach or fi.name in ("__repr__", "__str__") and False:
+            continue
+        for node in walk_local(fi.node, into_lambdas=False):
+            cands: list[tuple[ast.expr, str]] = []
+            if isinstance(node, ast.FormattedValue):
+                cands.append((node.value, "f-string"))
+            elif isinstance(node, ast.Call):
+                d = dotted(node.func) or ""
+                if d in ("str", "repr", "format") and node.args:
+                    cands.append((node.args[0], f"{d}()"))
+                elif isinstance(node.func, ast.Attribute) and node.func.attr == "format":
+                    cands += [(a, ".format()") for a in list(node.args) + [k.value for k in node.keywords]]
+                elif isinstance(node.func, ast.Attribute) and node.func.attr == "join" and node.args:
+                    a0 = node.args[0]
+                    if isinstance(a0, (ast.GeneratorExp, ast.ListComp)) and a0.generators:
+                        cands.append((a0.generators[0].iter, "join over"))
+                    else:
+                        cands.append((a0, "join"))
+                elif d in ("list", "tuple") and node.args and isinstance(parent(node), (ast.FormattedValue,)):
+                    cands.append((node.args[0], f"{d}() in an f-string"))
+            elif isinstance(node, ast.BinOp) and isinstance(node.op, ast.Mod) and isinstance(node.left, (ast.Constant, ast.JoinedStr)):
+                cands += [(x, "% formatting") for x in (node.right.elts if isinstance(node.right, ast.Tuple) else [node.right])]
+            for e, how in cands:
+                if not _is_set_expr(ef, e, fi):
+                    continue
+                n += 1
+                k = f"{fi.fq}|{how} {short(e, 50)}"
+                rep.violation(
+                    "C15.R13",
+                    k,
+                    fi.module.site(node),
+                    f"`{short(parent(node) if isinstance(node, ast.FormattedValue) else node, 70)}` turns the set `{short(e, 40)}` into text in its iteration order, which differs from process to process (string hashing is randomised): "
+                    "the message of the same document differs between runs/workers; sort it first",
+                )
+    # sorted(...) sites are the discharged obligations: list them so the rule is not vacuous
+    for fi in corpus.all_functions():
+        if fi.fq not in ef.parse_reach:
+            continue
+        for node in walk_local(fi.node, into_lambdas=False):
+            if isinstance(node, ast.Call) and dotted(node.func) == "sorted" and node.args and _is_set_expr(ef, node.args[0], fi):
+                rep.ok("C15.R13", f"{fi.fq}|sorted({short(node.args[0], 40)})", fi.module.site(node), "set ordered before it is turned into text")
+    if not any(i.rule == "C15.R13" for i in rep.items):
+        rep.ok("C15.R13", "no set is formatted in parse reach", "myst_parser", "nothing to judge")
+
+
+# ---------------------------------------------------------------------------
+# R14 shared mutable values are not handed to template code by reference
+
+
+def _is_template_render(ef: Effects, call: ast.Call, fi: FunctionInfo) -> bool:
+    f = call.func
+    if not (isinstance(f, ast.Attribute) and f.attr == "render"):
+        return False
+    recv = f.value
+    # env.from_string(...).render(...) / template = env.from_string(...); template.render(...)
+    def from_env(x: ast.expr, depth: int = 0) -> bool:
+        if depth > 3:
+            return False
+        if isinstance(x, ast.Call) and isinstance(x.func, ast.Attribute) and x.func.attr in ("from_string", "get_template", "select_template"):
+            return True
+        if isinstance(x, ast.Call) and ef.callee_name(x, fi).startswith("jinja2."):
+            return True
+        if isinstance(x, ast.Name):
+            _, b = ef.lookup(x.id, fi)
+            return any(k_ == "assign" and v is not None and from_env(v, depth + 1) for k_, v, _p in b or [])
+        return False
+
+    return from_env(recv)
+
+
+def _content_roots(ef: Effects, e: ast.expr, fi: FunctionInfo, depth: int = 0) -> list[tuple[Root, ast.AST, FunctionInfo]]:
+    """Shared roots of the objects that the container ``e`` *holds* (one level: a shallow copy still holds the originals)."""
+    out: list[tuple[Root, ast.AST, FunctionInfo]] = []
+    if depth > 5:
+        return out
+
+    def held_by(obj: ast.expr, f: FunctionInfo) -> list[tuple[Root, ast.AST, FunctionInfo]]:
+        """``obj`` is itself a container whose elements get exposed (unpacked / shallow-copied)."""
+        if isinstance(obj, ast.Call):
+            d = dotted(obj.func) or ""
+            if d.endswith("deepcopy"):
+                return []
+            if d in _COPY_CALLS and obj.args:
+                return held_by(obj.args[0], f)
+            if isinstance(obj.func, ast.Attribute) and obj.func.attr == "copy":
+                return held_by(obj.func.value, f)
+        if isinstance(obj, (ast.Dict, ast.List, ast.Set, ast.Tuple)):
+            return _content_roots(ef, obj, f, depth + 1)
+        if isinstance(obj, ast.Name):
+            return _content_roots(ef, obj, f, depth + 1)
+        if isinstance(obj, ast.Attribute) and isinstance(obj.value, ast.Name) and obj.value.id == "self":
+            so = ef.self_owner(f)
+            stores = ef._self_store_index(so.cls).get(obj.attr) if so is not None else None
+            if stores:
+                res = []
+                for meth, v in stores:
+                    if isinstance(v, ast.Constant):
+                        continue
+                    res += held_by(v, meth)
+                return res
+        return [(r, obj, f) for r in ef.classify(obj, f) if r.kind in ("CONFIG", "GLOBAL", "CLASSATTR", "SETTINGS")]
+
+    if isinstance(e, ast.Dict):
+        for k_, v in zip(e.keys, e.values):
+            if k_ is None:
+                out += held_by(v, fi)
+            else:
+                out += [(r, v, fi) for r in ef.classify(v, fi) if r.kind in ("CONFIG", "GLOBAL", "CLASSATTR", "SETTINGS")]
+    elif isinstance(e, (ast.List, ast.Set, ast.Tuple)):
+        for v in e.elts:
+            if isinstance(v, ast.Starred):
+                out += held_by(v.value, fi)
+            else:
+                out += [(r, v, fi) for r in ef.classify(v, fi) if r.kind in ("CONFIG", "GLOBAL", "CLASSATTR", "SETTINGS")]
+    elif isinstance(e, ast.Name):
+        f, binds = ef.lookup(e.id, fi)
+        for kind, v, p_ in binds or []:
+            if kind == "assign" and v is not None and not p_:
+                out += held_by(v, f) if not isinstance(v, (ast.Dict, ast.List, ast.Set, ast.Tuple)) else _content_roots(ef, v, f, depth + 1)
+        if f is not None:
+            for n in walk_local(f.node, into_lambdas=False):
+                if isinstance(n, ast.Assign) and len(n.targets) == 1 and isinstance(n.targets[0], ast.Subscript) and isinstance(n.targets[0].value, ast.Name) and n.targets[0].value.id == e.id:
+                    out += [(r, n.value, f) for r in ef.classify(n.value, f) if r.kind in ("CONFIG", "GLOBAL", "CLASSATTR", "SETTINGS")]
+    else:
+        out += held_by(e, fi)
+    return out
+
+
+@rule("C15.R14")
+def r14_template_context(corpus: Corpus, rep: Report, tier: str):
+    rep.rule("C15.R14", "the variable context given to a template holds deep copies of configured values: template code can call mutating methods, and a shallow copy still hands it the dict/list objects all documents share")
+    ef = _effects(corpus)
+    n = 0
+    for fi in corpus.all_functions():
+        if fi.is_lambda or fi.fq not in ef.parse_reach:
+            continue
+        for call in [c for c in walk_local(fi.node, into_lambdas=False) if isinstance(c, ast.Call)]:
+            if not _is_template_render(ef, call, fi):
+                continue
+            n += 1
+            k = f"{fi.fq}|{short(call, 70)}"
+            site = fi.module.site(call)
+            held = []
+            for a in list(call.args) + [kw.value for kw in call.keywords]:
+                held += _content_roots(ef, a, fi)
+            if not held:
+                rep.ok("C15.R14", k, site, "nothing that the configuration (or a global) owns is reachable from the context by reference")
+                continue
+            # a by-reference fallback inside the handler of a try that attempts the deep copy first is best effort
+            hard = []
+            for r, node_, f_ in held:
+                best_effort = False
+                child = node_
+                for a_ in ancestors(node_):
+                    if isinstance(a_, ast.ExceptHandler):
+                        tr = parent(a_)
+                        if isinstance(tr, ast.Try) and any(isinstance(c_, ast.Call) and (dotted(c_.func) or "").endswith("deepcopy") for b_ in tr.body for c_ in ast.walk(b_)):
+                            best_effort = True
+                    child = a_
+                if not best_effort:
+                    hard.append((r, node_, f_))
+            if hard:
+                r, node_, f_ = hard[0]
+                rep.violation(
+                    "C15.R14",
+                    k,
+                    site,
+                    f"the context of `{short(call, 50)}` holds `{short(node_, 50)}` ({r.kind}: {r.why[:100]}) by reference (at most a shallow copy): an expression such as "
+                    "`{{ counter.update(...) }}` or `{{ seen.append(...) }}` changes the configured value for every document parsed later in the process",
+                )
+            else:
+                rep.assumed("C15.R14", k, site, "deep copy attempted first; only values that cannot be deep-copied stay shared (best effort, by-reference fallback in the except handler)")
+    if n == 0:
+        rep.ok("C15.R14", "no template is rendered in parse reach", "myst_parser", "nothing to judge")
+
 # ---------------------------------------------------------------------------
 # R6 document-scoped state (evidence only)
 
@@ -2776,7 +3054,7 @@ def r2_pairing(corpus: Corpus, rep: Report, tier: str):
                                 rep.listed("C15.R2", k, fi.module.site(n), f"finally deletes `{txt}`; no store of it is visible in the try body - not judged")
     rep.expect_min("C15.R2", 6, "restore/undo statements in finally blocks (figure-md 1, include mock 7, substitution 1)")
 
-RULES = [r1_effect_classification, r2_pairing, r3_pure_caches, r4_freshness, r5_reset_completeness, r6_document_scoped, r7_nondeterminism, r8_field_ownership, r9_env_config_refreshed, r10_no_aliasing_into_mutated_slots, r11_lookup_messages, r12_no_once_emission]
+RULES = [r1_effect_classification, r2_pairing, r3_pure_caches, r4_freshness, r5_reset_completeness, r6_document_scoped, r7_nondeterminism, r8_field_ownership, r9_env_config_refreshed, r10_no_aliasing_into_mutated_slots, r11_lookup_messages, r12_no_once_emission, r13_set_order_not_in_text, r14_template_context]
 
 
 
@@ -3051,12 +3329,12 @@ def mutants(corpus: Corpus):
     else:
         out.append(("c15-cached-html-tokenizer-instance", "HtmlToAst(...) construction in tokenize_html not found"))
     f = base.func("DocutilsRenderer.render_substitution")
-    c = find_node(f, lambda n: isinstance(n, ast.Call) and unparse(n.func) == "jinja2.Environment")
+    c = find_node(f, lambda n: isinstance(n, ast.Call) and (dotted(n.func) or "").startswith("jinja2.") and (dotted(n.func) or "").endswith("Environment"))
     if c is not None:
         helper = "\n\nimport functools\n\n\n@functools.lru_cache(maxsize=None)\ndef _substitution_env():\n    return " + _seg(f, c) + "\n"
         add("c15-cached-jinja-environment", "C15.R3", f, splice(base.src, c, "_substitution_env()") + helper, "_substitution_env")
     else:
-        out.append(("c15-cached-jinja-environment", "jinja2.Environment(...) in render_substitution not found"))
+        out.append(("c15-cached-jinja-environment", "jinja2 ...Environment(...) in render_substitution not found"))
     inv = corpus.mod("inventory")
     f = inv.func("filter_string")
     rl = find_node(f, lambda n: isinstance(n, ast.Return) and n.value is not None)
@@ -3110,4 +3388,33 @@ def mutants(corpus: Corpus):
     add("c15-config-copy-returns-self-without-kwargs", "C15.R1", f, _prepend_stmt(f, "if not kwargs:\n            return self"), "MdParserConfig.copy")
     f = base.func("DocutilsRenderer._render_finalise")
     add("c15-config-field-name-stored-on-settings", "C15.R1", f, _prepend_stmt(f, "self.document.settings.myst_heading_anchors = self.md_config.heading_anchors"), "myst_heading_anchors")
+    # --- round 10: repaired live defects, each fix reverted --------------------------------------------
+    cm = corpus.mod("config.main")
+    f = cm.func("check_extensions")
+    c = find_node(f, lambda n: isinstance(n, ast.Call) and dotted(n.func) == "sorted")
+    if c is not None:
+        add("c15-revert-157a6d4-unknown-extensions-listed-in-set-order", "C15.R13", f, splice(cm.src, c, _seg(f, c.args[0])), "check_extensions")
+    else:
+        out.append(("c15-revert-157a6d4-unknown-extensions-listed-in-set-order", "sorted(...) in check_extensions not found"))
+    f = base.func("DocutilsRenderer.render_substitution")
+    c = find_node(f, lambda n: isinstance(n, ast.Call) and dotted(n.func) == "sorted" and n.args and unparse(n.args[0]) == "cyclic")
+    if c is not None:
+        add("c15-revert-157a6d4-circular-names-listed-in-set-order", "C15.R13", f, splice(base.src, c, "cyclic"), "render_substitution")
+    else:
+        out.append(("c15-revert-157a6d4-circular-names-listed-in-set-order", "sorted(cyclic) in render_substitution not found"))
+    su = base.func("DocutilsRenderer.setup_render")
+    st = find_stmt(su, lambda n: isinstance(n, (ast.Assign, ast.AnnAssign)) and unparse(n.targets[0] if isinstance(n, ast.Assign) else n.target) == "self._inventories")
+    if st is not None:
+        add("c15-revert-a2a9a1a-inventories-not-reset-per-render", "C15.R5", su, splice(base.src, st, "pass"), "_inventories")
+    else:
+        out.append(("c15-revert-a2a9a1a-inventories-not-reset-per-render", "self._inventories reset in setup_render not found"))
+    f = base.func("DocutilsRenderer.render_substitution")
+    d_ = find_node(f, lambda n: isinstance(n, ast.Dict) and n.keys == [None] and "_substitutions" in unparse(n.values[0]))
+    if d_ is not None:
+        add("c15-revert-b9c046f-configured-substitutions-passed-by-reference", "C15.R14", f, splice(base.src, d_.values[0], "self.md_config.substitutions"), "render_substitution")
+    else:
+        out.append(("c15-revert-b9c046f-configured-substitutions-passed-by-reference", "{**self._substitutions} in render_substitution not found"))
+    c = find_node(f, lambda n: isinstance(n, ast.Call) and (dotted(n.func) or "").endswith("deepcopy"))
+    if c is not None:
+        add("c15-substitutions-only-shallow-copied", "C15.R14", f, splice(base.src, c.func, "dict"), "render_substitution")
     return out
